@@ -108,6 +108,58 @@ Theorem C12_orig_fails_oracle :
 Proof. exact orig_fails_oracle. Qed.
 Print Assumptions C12_orig_fails_oracle.
 
+(* ---- Transport header validity -------------------------------------------------------------------
+   [transport_invalid] is the specification: no transport spec, an unknown spec, "multicast" on
+   RTP/AVP/TCP, or ANY parameter interleaved / client_port / server_port / port whose first number is
+   missing, not a number or negative.  It does not depend on the order of the parameters. *)
+From V Require C12TransportProofs C12Wsp C12WspProofs.
+
+(* the model of RTPTransport.ParseTransport fails exactly on the invalid headers, from every transport state *)
+Theorem C12_transport_error_is_spec : forall t0 ts,
+  snd (parse_transport t0 ts) = transport_invalid ts.
+Proof. exact C12TransportProofs.parse_transport_err_is_spec. Qed.
+Print Assumptions C12_transport_error_is_spec.
+
+(* order independence: any rearrangement of the parameters gives the same verdict; a fault is never
+   cleared by what follows it *)
+Theorem C12_transport_error_order_independent : forall toks toks' t e,
+  Permutation.Permutation toks toks' ->
+  snd (fold_left tok_step toks (t, e)) = snd (fold_left tok_step toks' (t, e)).
+Proof. exact C12TransportProofs.transport_error_order_independent. Qed.
+Print Assumptions C12_transport_error_order_independent.
+
+Theorem C12_transport_error_is_sticky : forall toks1 bad toks2 t e,
+  tok_bad (ttype_eqb (t_type t) TTcp) bad = true ->
+  snd (fold_left tok_step (toks1 ++ bad :: toks2) (t, e)) = true.
+Proof. exact C12TransportProofs.transport_error_is_sticky. Qed.
+Print Assumptions C12_transport_error_is_sticky.
+
+(* a SETUP is answered 2xx only if its Transport header is valid: a session never becomes ready (and
+   hence never plays or records) through a SETUP with a malformed transport; the monitor [c12_ok]
+   demands the same of the implementation *)
+Theorem C12_setup_2xx_only_if_transport_valid : forall e s q s' c fs,
+  s_closed s = false -> step e s q = (s', [resp c q], fs) ->
+  q_meth q = MSetup -> is_2xx c = true -> transport_invalid (q_transport q) = false.
+Proof. exact step_setup_valid. Qed.
+Print Assumptions C12_setup_2xx_only_if_transport_valid.
+
+(* the same for a WSP channel (service/wsp uses the same ParseTransport) *)
+Theorem C12_wsp_setup_2xx_only_if_transport_valid : forall e s q s' c fs,
+  C12Wsp.wrtsp_step true e s q = (s', c, fs) -> C12Wsp.wq_meth q = C12Wsp.WmSetup -> is_2xx c = true ->
+  transport_invalid (C12Wsp.wq_transport q) = false.
+Proof. exact C12WspProofs.wrtsp_setup_valid. Qed.
+Print Assumptions C12_wsp_setup_2xx_only_if_transport_valid.
+
+Example C12_transport_nonvacuous :
+  transport_invalid C12TransportProofs.C12TrEx.bad_then_ttl = true /\
+  transport_invalid C12TransportProofs.C12TrEx.ttl_then_bad = true /\
+  transport_invalid C12TransportProofs.C12TrEx.mc_on_tcp = true /\
+  transport_invalid C12TransportProofs.C12TrEx.bad_port = true /\
+  transport_invalid C12TransportProofs.C12TrEx.good = false /\
+  parse_transport {| t_mode := MdPlay; t_type := TUnknown |} C12TransportProofs.C12TrEx.good
+    = ({| t_mode := MdPlay; t_type := TTcp |}, false).
+Proof. exact C12TransportProofs.transport_examples. Qed.
+
 (* non-vacuity: a well-formed sequence that reaches playing, attaches a consumer, and releases it *)
 Example C12_nonvacuous :
   forallb req_wf ex_reqs = true /\
